@@ -242,7 +242,7 @@ def scenario_histories():
 # ----------------------------------------------------------------------------- FSM differential test
 
 def fsm_test(ctx, exe):
-    rc, outs, e = vlib.run_driver(exe, "fsm", [{}], timeout=600)
+    rc, outs, e = vlib.run_driver(exe, "fsm", [{}], args=(["quick"] if ctx.quick else []), timeout=600)
     if rc != 0 or len(outs) != 1:
         ctx.broken("driver:fsm", (e or "")[-800:])
         return
@@ -257,28 +257,41 @@ def fsm_test(ctx, exe):
             rows.append("(%s, %s, %s, %s, %s)" % (KIND[x["k"]], gstr(x["s"]), gstr(x["e"]), gstr(x["l"]), res))
     for x in pre:
         prow.append("(%s, %s, %s, %s)" % (KIND[x["k"]], gstr(x["e"]), gstr(x["s"]), gbool(x["ok"])))
-    src = ("From BX Require Import Base.Prelude Model.Gate Model.Lifecycle.\nFrom Coq Require Import String.\nLocal Open Scope string_scope.\n"
-           "Definition rows : list (okind * string * string * string * option string) :=\n %s.\n"
-           "Definition rrows : list (string * string * string * bool * bool * option (string * bool)) :=\n %s.\n"
-           "Definition prows : list (okind * string * string * bool) :=\n %s.\n"
-           "Definition count_bad {A} (f : A -> bool) (l : list A) : N := N.of_nat (List.length (filter (fun x => negb (f x)) l)).\n"
-           "Definition M := Eval vm_compute in [(count_bad judge_fire rows, 0%%N); (count_bad judge_fire_rule rrows, 0%%N); (count_bad judge_pre prows, 0%%N)].\nPrint M.\n"
-           "Definition B := Eval vm_compute in (firstn 3 (filter (fun x => negb (judge_fire x)) rows), firstn 3 (filter (fun x => negb (judge_fire_rule x)) rrows), firstn 3 (filter (fun x => negb (judge_pre x)) prows)).\nPrint B.\n"
-           ) % (glist(rows), glist(rrows), glist(prow))
-    rc, out = vlib.coq_eval("C16_fsm_%d" % os.getpid(), src, timeout=1200)
-    vs = vlib.parse_verdicts(out)
     n = len(rows) + len(rrows) + len(prow)
     ctx.extra["fsm_pairs_checked"] = n
-    if rc != 0 or vs is None or len(vs) != 3:
-        ctx.broken("correspondence:fsm-differential", out[-1500:])
-        return
-    bad = sum(v[0] for v in vs)
-    for _ in range(n):
-        ctx.evaluations += 1
+    jobs = [("rows", "okind * string * string * string * option string", "judge_fire", rows[i:i + 2500]) for i in range(0, len(rows), 2500)]
+    jobs += [("rrows", "string * string * string * bool * bool * option (string * bool)", "judge_fire_rule", rrows[i:i + 2500]) for i in range(0, len(rrows), 2500)]
+    jobs += [("prows", "okind * string * string * bool", "judge_pre", prow)]
+    bad, bad_txt, errs = [0], [], []
+
+    def work(k, job):
+        name, typ, fn, lst = job
+        src = ("From BX Require Import Base.Prelude Model.Gate Model.Lifecycle.\nFrom Coq Require Import String.\nLocal Open Scope string_scope.\n"
+               "Definition rows : list (%s) :=\n %s.\n"
+               "Definition M := Eval vm_compute in [(N.of_nat (List.length (filter (fun x => negb (%s x)) rows)), 0%%N)].\nPrint M.\n"
+               "Definition B := Eval vm_compute in firstn 3 (filter (fun x => negb (%s x)) rows).\nPrint B.\n") % (typ, glist(lst), fn, fn)
+        rc, out = vlib.coq_eval("C16_fsm_%d_%d" % (os.getpid(), k), src, timeout=1200)
+        vs = vlib.parse_verdicts(out)
+        if rc != 0 or vs is None or len(vs) != 1:
+            errs.append(out[-1200:])
+            return
+        if vs[0][0]:
+            bad[0] += vs[0][0]
+            bad_txt.append(out[out.find("B ="):][:600])
+
+    ts = [threading.Thread(target=work, args=(k, j)) for k, j in enumerate(jobs)]
+    for i in range(0, len(ts), 8):
+        for t in ts[i:i + 8]:
+            t.start()
+        for t in ts[i:i + 8]:
+            t.join()
+    ctx.evaluations += n
     ctx.traces_validated += n
-    if bad:
+    if errs:
+        ctx.broken("correspondence:fsm-differential", errs[0])
+    elif bad[0]:
         ctx.broken("correspondence:fsm-differential", "%d of %d (status,event,lastStatus) rows differ between the generated tables + fsm semantics and the real ChangeStatus/GovernancePre: %s"
-                   % (bad, n, out[out.find("B ="):][:900]))
+                   % (bad[0], n, " ".join(bad_txt)[:900]))
 
 
 # ----------------------------------------------------------------------------- main
